@@ -80,3 +80,21 @@ M("c02.skip-step-counts-as-passed", "C02", MOD, "                if self.status 
   "                if self.status in (Status.untested, Status.skipped):\n                    # -- NOTE: Executed step may have skipped scenario and itself.")
 M("c02.wip-from-own-tags-only", "C02", MOD, 'if current_scenario and "wip" in current_scenario.effective_tags:',
   'if current_scenario and "wip" in current_scenario.tags:')
+
+# ---- C03 -------------------------------------------------------------------
+MC = "behave/model_core.py"
+M("c03.pending-not-error", "C03", MC, "return self in (Status.error, Status.hook_error, Status.cleanup_error,\n                        Status.undefined, Status.pending)",
+  "return self in (Status.error, Status.hook_error, Status.cleanup_error,\n                        Status.undefined)")
+M("c03.hook_error-not-final", "C03", MC, "                        Status.hook_error,\n                        # -- USED FOR: STEP is not found/registered",
+  "                        # -- USED FOR: STEP is not found/registered")
+M("c03.container-skipped-init-false", "C03", MOD, "        skipped = True\n        passed_count = 0", "        skipped = False\n        passed_count = 0")
+M("c03.container-untested-branch-removed", "C03", MOD, "                if untested_status is None:\n                    untested_status = Status.untested",
+  "                if False:\n                    untested_status = Status.untested")
+M("c03.scenario-final-clear-status-removed", "C03", MOD, "        self.clear_status()  # -- ENFORCE: compute_status() after run.\n        if not run_scenario and not self.steps:",
+  "        if not run_scenario and not self.steps:")
+M("c03.outline-untested-case-removed", "C03", MOD, "        if untested_count > 0 or (not self._scenarios and", "        if False and (not self._scenarios and")
+M("c03.outer-status-hook_error-kept", "C03", MC, "        assert isinstance(status, Status)\n        if status.is_error():\n            return Status.error\n        elif status.is_failure():\n            return Status.failed\n        elif status is Status.pending_warn:",
+  "        assert isinstance(status, Status)\n        if status is Status.error:\n            return Status.error\n        elif status.is_failure():\n            return Status.failed\n        elif status is Status.pending_warn:")
+M("c03.container-clear-status-after-run-removed", "C03", MOD, "        self.clear_status()  # -- ENFORCE: compute_status() after run.\n        if not self.run_items and not should_run_entity:",
+  "        if not self.run_items and not should_run_entity:")
+M("c03.xpassed-also-failure", "C03", MC, "        return self is Status.failed\n", "        return self in (Status.failed, Status.xpassed)\n")
